@@ -1407,6 +1407,20 @@ func c1NilGuards(c *Ctx, rule string, jsonOnly bool) {
 				for _, g := range coreFuncs(c) {
 					for _, st := range FieldStoresOf(g, c.Named(CorePath, "jsonEncoder")) {
 						if st.Field == "EncoderConfig" && !IsNilConst(Strip(st.Instr.Val)) && !strings.HasSuffix(Desc(st.Instr.Val), ".EncoderConfig") {
+							// a helper that stores what it is handed: what matters is what its callers hand it
+							if pv, isP := Strip(st.Instr.Val).(*ssa.Parameter); isP && len(sitesOf(g)) > 0 && !token.IsExported(g.Name()) {
+								inherited := true
+								for _, site := range sitesOf(g) {
+									for ai, a := range Args(site) {
+										if ai < len(g.Params) && g.Params[ai] == pv && !strings.HasSuffix(Desc(a), ".EncoderConfig") {
+											inherited = false
+											attach = append(attach, site.Parent().Name())
+										}
+									}
+								}
+								_ = inherited
+								continue
+							}
 							attach = append(attach, g.Name())
 						}
 					}
